@@ -117,18 +117,24 @@ def r1_time(ctx, f):
         c = g.term_cond(bid)
         cs = cmp_sides(c) if c is not None else None
         if cs and is_this_field(strip(cs[1], casts=True), "_next_rotation_time") and var_ref(cs[2]) == ts and not loops_of(f, c):
-            test = (bid, cs[0])
-    if test is None or not rot:
-        raise AnalysisBroken(site + ": comparison of the statement timestamp with _next_rotation_time / _rotate_files call not found")
-    bid, op = test
+            test = (bid, cs[0], "T")
+        elif cs and is_this_field(strip(cs[2], casts=True), "_next_rotation_time") and var_ref(cs[1]) == ts and not loops_of(f, c):
+            # ts < next / ts <= next is the 'not due' relation: due is its complement
+            test = (bid, "<=" if cs[0] == "<" else "<", "F")
+    if test is None:
+        raise AnalysisBroken(site + ": comparison of the statement timestamp with _next_rotation_time not found")
+    if not rot:
+        ctx.ob("C15.R1c1", site + ":at-or-after-point-rotates", False, "the time check never rotates the files (no _rotate_files call)", fn=f)
+        return
+    bid, op, due_lab = test
     t = tnode(g, bid)
     trues = g.return_nodes(lambda r: const_val(r.get("val")) == 1)
     falses = g.return_nodes(lambda r: const_val(r.get("val")) == 0)
-    due = g.reach([t], avoid_edges=[(bid, "F")])
-    notdue = g.reach([t], avoid_edges=[(bid, "T")])
+    due = g.reach([t], avoid_edges=[(bid, other(due_lab))])
+    notdue = g.reach([t], avoid_edges=[(bid, due_lab)])
     ok = op == "<=" and all(p in due and p not in notdue for p in rp) and bool(trues) and bool(falses) and \
         all(r in due and r not in notdue for r in trues) and all(r in notdue and r not in due for r in falses) and \
-        not g.exists_path([t], trues, avoid_nodes=rp, avoid_edges=[(bid, "F")]) and all(var_ref(c["args"][0]) == ts for c in rot)
+        not g.exists_path([t], trues, avoid_nodes=rp, avoid_edges=[(bid, other(due_lab))]) and all(var_ref(c["args"][0]) == ts for c in rot)
     ctx.ob("C15.R1c1", site + ":at-or-after-point-rotates", ok,
            "a statement whose timestamp is at or after the next rotation point (next <= timestamp; found '%s') rotates before it is written and "
            "reports 'rotated'; an earlier one does neither" % op, fn=f)
@@ -136,7 +142,7 @@ def r1_time(ctx, f):
     calc = f.calls(r"::_calculate_rotation_tp$")
     asg = [n for n in f.walk() if n["k"] == "BinaryOperator" and n["op"] == "=" and is_this_field(n["lhs"], "_next_rotation_time")]
     ap = npos(f, asg)
-    ok_after = bool(asg) and not g.exists_path(rp, trues, avoid_nodes=ap) and not g.exists_path([g.entry_node], ap, avoid_edges=[(bid, "T")])
+    ok_after = bool(asg) and not g.exists_path(rp, trues, avoid_nodes=ap) and not g.exists_path([g.entry_node], ap, avoid_edges=[(bid, due_lab)])
     from_sched = bool(calc) and all(not any(x["k"] == "DeclRefExpr" and x.get("did") == ts for x in walk(c["args"][0])) and
                                     (any(is_this_field(x, "_next_rotation_time") for x in walk(c["args"][0])) or
                                      local_from_field(f, c["args"][0], "_next_rotation_time")) for c in calc) and \
@@ -224,6 +230,25 @@ def r2(ctx, facts):
                                 var_ref(strip(r["val"], casts=True)["lhs"]) == p0 for r in rets)
         ctx.ob("C15.R2b", "RotatingSink<%s>::_calculate_rotation_tp:adds-period" % inst(f), ok,
                "every arm returns its argument plus the period", fn=f)
+        # per frequency: the period is rotation_interval() minutes / hours, or 24 hours, converted to the nanoseconds of the timestamp
+        g2 = f.g
+        per = {}
+        for (b, e, op) in freq_tests(f, g2):
+            if op != "==":
+                continue
+            for p_ in straight_after(g2, b, "T"):
+                n = g2.node_ast(p_)
+                if isnode(n) and n.get("k") == "ReturnStmt":
+                    tys = [x.get("ty", "") for x in walk(n.get("val")) if x["k"] in ("CXXConstructExpr", "CXXFunctionalCastExpr", "CXXTemporaryObjectExpr")]
+                    unit = [t for t in tys if t in ("std::chrono::minutes", "std::chrono::hours", "std::chrono::seconds", "std::chrono::milliseconds", "std::chrono::microseconds")]
+                    to_ns = "std::chrono::nanoseconds" in tys and any(is_call(x, r"duration<.*>::count$|duration::count$") for x in walk(n.get("val")))
+                    amount = "interval" if any(is_call(x, r"::rotation_interval$") for x in walk(n.get("val"))) else \
+                        [x["val"] for x in walk(n.get("val")) if x["k"] == "IntegerLiteral"]
+                    per[e] = (sorted(set(unit)), amount, to_ns)
+        want = {"Minutely": (["std::chrono::minutes"], "interval", True), "Hourly": (["std::chrono::hours"], "interval", True), "Daily": (["std::chrono::hours"], [24], True)}
+        ctx.ob("C15.R2b2", "RotatingSink<%s>::_calculate_rotation_tp:period-per-frequency" % inst(f), per == want,
+               "Minutely adds rotation_interval() minutes, Hourly rotation_interval() hours, Daily 24 hours, each converted to nanoseconds "
+               "(found %s)" % per, fn=f)
     # ctor: initial point computed iff not Disabled
     ctors = [f for f in facts.fns if f.config == "A" and f.short == "quill::RotatingSink::RotatingSink" and f.rec.get("inits")]
     ctx.floor("C15.R2c", "RotatingSink constructors", len(ctors), 2)
@@ -321,7 +346,8 @@ def r3_initial(ctx, facts, f):
             if not isnode(n):
                 continue
             if n["k"] == "CompoundAssignOperator" and _tm_field(n["lhs"]) == unit:
-                adv = "plain" if n["op"] == "+=" and const_val(n["rhs"]) == 1 else "other"
+                adv = "plain" if n["op"] == "+=" and const_val(n["rhs"]) == 1 else \
+                    ("step of %s" % const_val(n["rhs"]) if n["op"] == "+=" and const_val(n["rhs"]) is not None else "other")
             elif n["k"] == "UnaryOperator" and n.get("op") == "++" and _tm_field(n["sub"]) == unit:
                 adv = "plain"
             elif n["k"] == "BinaryOperator" and n["op"] == "=" and _tm_field(n["lhs"]):
@@ -342,10 +368,10 @@ def r3_initial(ctx, facts, f):
             carry = any(isnode(n) and _tm_field(n.get("lhs")) in units[units.index(unit) + 1:] + ["tm_mday"] for n in arm[e] if isnode(n) and n["k"] in ("BinaryOperator", "CompoundAssignOperator"))
             if carry:
                 raise AnalysisBroken(site + ": %s arm wraps %s with an explicit carry — a shape no accepted idiom covers" % (e, unit))
-        if adv in (None, "other"):
+        if adv == "other":
             raise AnalysisBroken(site + ": %s arm: advance of %s has a shape no accepted idiom covers" % (e, unit))
         ctx.ob("C15.R3b", site + ":%s:advance-with-carry" % e, adv == "plain" and smaller <= zeroed,
-               "%s: %s is advanced by one by plain addition (found: %s) so that the normalising conversion carries :59 into the next "
+               "%s: %s is advanced by exactly one by plain addition (found: %s) so that the normalising conversion carries :59 into the next "
                "hour / 23h into the next day, and the smaller units %s are zeroed (zeroed: %s)" % (e, unit, adv, sorted(smaller), sorted(zeroed)), fn=f)
     if "Daily" not in arm:
         raise AnalysisBroken(site + ": no arm for Daily")
@@ -378,6 +404,14 @@ def r3_initial(ctx, facts, f):
         if var_ref(big) is not None and var_ref(t_) == var_ref(big) and any(x["k"] == "BinaryOperator" and x["op"] == "+" for x in walk(e_)) and \
                 any(var_ref(x) == var_ref(big) for x in walk(e_)) and cs[0] == "<":
             ok = True
+    day = False
+    for c in cond:
+        e_ = c.get("else")
+        tys = [x.get("ty", "") for x in walk(e_) if x["k"] in ("CXXConstructExpr", "CXXFunctionalCastExpr", "CXXTemporaryObjectExpr")]
+        lits = [x["val"] for x in walk(e_) if x["k"] == "IntegerLiteral"]
+        if ("std::chrono::hours" in tys and lits == [24] and "std::chrono::seconds" in tys) or lits in ([86400], [24, 3600], [24, 60, 60]):
+            day = True
+    ok = ok and day
     ctx.ob("C15.R3d", site + ":past-point-moved-ahead", ok,
            "the computed point is used only when it lies strictly after the start instant, otherwise a day is added (a first point at "
            "or before the start would rotate on the very first statement)", fn=f)
